@@ -269,9 +269,13 @@ func (s *Session) hit(class string, ctx context.Context) faultAction {
 		_ = a[fire.K+1] // a genuine runtime.Error
 	case "error":
 		return actError
-	case "cancel", "cancelquery":
+	case "cancel", "cancelquery", "cancelslow":
 		if s.Cancel != nil {
 			s.Cancel()
+		}
+		if fire.Kind == "cancelslow" {
+			// a storage that takes a while to come back after the cancellation
+			time.Sleep(3 * time.Millisecond)
 		}
 	case "block", "blockdl":
 		if ctx != nil {
